@@ -290,7 +290,8 @@ fn gen_lang(a: &HashMap<String, String>) {
             let mut vars = Vec::new();
             let mut first: Option<wirefilter::FilterAst> = None;
             for vi in 0..4 {
-                let tv = if vi == 0 { ts.clone() } else { alias_variant(&mut r, &ts) };
+                // the last variant also writes every regular expression in the other literal form
+                let tv = if vi == 0 { ts.clone() } else if vi == 3 { let av = alias_variant(&mut r, &ts); flip_regex_forms(&mut r, &av) } else { alias_variant(&mut r, &ts) };
                 let sv = if vi == 0 { src.clone() } else { random_layout(&mut r, &tv) };
                 vars.push(observe_canon(&w, si + 1, max, &sv, &mut first));
             }
